@@ -109,6 +109,9 @@ class Lock:
 def configure(precision=2):
     """cmake configure only; returns (cfgdir, compdb entries for .cpp files)."""
     tag = 'cfg-p%d' % precision
+    if REPO != '/repo':
+        # trial runs against scratch trees get their own configure directory (they may run concurrently)
+        tag += '-' + hashlib.sha256(REPO.encode()).hexdigest()[:8]
     cfg = os.path.join(BUILD, tag)
     h = _hash_files(cmake_inputs())
     stamp = os.path.join(cfg, '.glv-stamp')
